@@ -41,7 +41,16 @@ def run_demo(path):
 def run_check(pid, tier, seed):
     env = dict(os.environ, VERIF_SEED=str(seed), VERIF_REPO=REPO)
     t0 = time.time()
-    p = sh([os.path.join(ROOT, "check"), pid, "--tier", tier], env=env, cwd=ROOT, timeout=3600)
+    # the evidence file describes runs on the unchanged tree: keep it as it was (a run against a seeded change must not
+    # end up in a commit)
+    ev = os.path.join(ROOT, "evidence", pid + ".json")
+    kept = open(ev).read() if os.path.exists(ev) else None
+    try:
+        p = sh([os.path.join(ROOT, "check"), pid, "--tier", tier], env=env, cwd=ROOT, timeout=3600)
+    finally:
+        if kept is not None:
+            with open(ev, "w") as fd:
+                fd.write(kept)
     sigs = [l.strip() for l in p.stdout.splitlines() if l.strip().startswith("signature:")]
     return {"rc": p.returncode, "violations": p.stdout.count("VIOLATION property="), "signatures": sigs[:6],
             "wall_s": round(time.time() - t0, 1)}
